@@ -32,14 +32,14 @@ theorem plan_none_of_no_marker {w : World} {dir : String} {md : DirSt} (h : w.ge
 /-- `openDB_scan` with "no merge directory" weakened to "nothing to adopt" -/
 theorem openDB_scan' (s : St) (dir : String) (cfg : Cfg) (d : DirSt) (r : Replay)
     (data' : List (Nat × FileSt))
-    (hdb : s.db = none) (hcfg : cfg.fileSize ≠ 0) (hd : s.world.get dir = some d)
+    (hdb : s.db = none) (hcfg : cfg.Valid) (hd : s.world.get dir = some d)
     (hl : d.locked = false) (hm : plan s.world dir = none) (hne : d.data ≠ [])
     (hload : loadIndex Replay.init 0 d.data = some (r, data')) :
     openDB s dir cfg
       = ({ world := s.world.set dir { d with data := data', locked := true },
            db := some (mkDB cfg dir r data') }, .ok) := by
   unfold openDB
-  simp only [hdb, if_neg hcfg, hd, Option.isNone_some, Bool.false_eq_true, if_false, Option.getD_some, hl]
+  simp only [hdb, if_neg hcfg.not_rejected, hd, Option.isNone_some, Bool.false_eq_true, if_false, Option.getD_some, hl]
   have hadopt : adopt s.world dir = (s.world, 0) := adopt_of_plan_none hm
   simp only [hadopt, hd, Option.getD_some, Nat.lt_irrefl, if_false, ite_self]
   have hne' : d.data.isEmpty = false := by
@@ -58,7 +58,7 @@ def scanDB (cfg : Cfg) (dir : String) (a : Nat) (g : GDir) : DB :=
 
 /-- scan-path `Open` of an unlocked directory whose files are the ghost files `g` -/
 theorem openDB_ghost (s : St) (dir : String) (cfg : Cfg) (d : DirSt) (g : GDir) (a : Nat)
-    (hdb : s.db = none) (hcfg : cfg.fileSize > 0) (hd : s.world.get dir = some d)
+    (hdb : s.db = none) (hcfg : cfg.Valid) (hd : s.world.get dir = some d)
     (hl : d.locked = false) (hm : plan s.world dir = none) (hmt : Matches d.data g)
     (hrecs : ∀ x ∈ g, ∀ r ∈ x.2, RecOK r) (hact : (g.getLast?).map (·.1) = some a) :
     openDB s dir cfg = ({ world := s.world.set dir { d with locked := true }, db := some (scanDB cfg dir a g) }, .ok) := by
